@@ -100,6 +100,46 @@ FlatMask(lt, v, n) ==
   LET fs == FlatSet(lt, v, 0) IN [i \in 1 .. n |-> IF \E p \in fs : p[1] = i THEN (CHOOSE p \in fs : p[1] = i)[3] ELSE 0]
 
 (***************************************************************************)
+(* Bounds-check policy and access log (C15, spec/Policy.tla).  Both are     *)
+(* OPTIONAL fields of the state, so that states built without them behave  *)
+(* exactly as before (policy "Unchecked": an out-of-range index abandons    *)
+(* the row with "oob", nothing is logged).                                  *)
+(*   st.pol = [storage, uniform, workgroup, private, function, value |->    *)
+(*             mode, neg |-> "hi" | "lo"]   mode (per address space of the   *)
+(*             root variable; `value` for indexing a value):               *)
+(*     "Unchecked"  out of range -> outside the compared domain ("oob")     *)
+(*     "Restrict"   the index is clamped into 0 .. len-1 (a negative i32    *)
+(*                  index goes to len-1 for neg = "hi", i.e. clamping of    *)
+(*                  the unsigned reinterpretation, or to 0 for neg = "lo")  *)
+(*     "RZSW"       the pointer becomes `oob`: loads yield the zero value,  *)
+(*                  stores and atomics are skipped                          *)
+(*     "Binding"    WGSL's minimum guarantee only (the access stays inside  *)
+(*                  the originating variable or is dropped): the result is  *)
+(*                  not pinned, the row is abandoned "unconstrained:oob"    *)
+(*   st.acc = sequence of [root, path, dyn, w, done]: every load (w = 0)    *)
+(*            and store / atomic (w = 1) through a reference; dyn = length  *)
+(*            of the path prefix naming the outermost dynamically indexed   *)
+(*            object (-1: no dynamic index); done = FALSE when skipped.     *)
+(* Pointers are [root, path, oob, dyn].                                     *)
+(***************************************************************************)
+PolModeOf(P, st, root) ==
+  IF "pol" \notin DOMAIN st THEN "Unchecked"
+  ELSE IF root = 0 THEN st.pol.value
+  ELSE IF root <= Len(P.globals) THEN st.pol[P.globals[root].space] ELSE st.pol.function
+PolNeg(st) == IF "pol" \in DOMAIN st THEN st.pol.neg ELSE "hi"
+PtrOob(p) == IF "oob" \in DOMAIN p THEN p.oob ELSE FALSE
+PtrDyn(p) == IF "dyn" \in DOMAIN p THEN p.dyn ELSE -1
+MkPtr(root) == [root |-> root, path |-> <<>>, oob |-> FALSE, dyn |-> -1]
+\* the in-range index an out-of-range one is clamped to; it: type of the index expression
+ClampIdx(i, len, it, neg) == IF it.k = "i32" /\ i < 0 /\ neg = "lo" THEN 0 ELSE len - 1
+\* remembers (optional field negc) that a negative i32 index was clamped: the only place where `neg` matters
+MarkNeg(st, i, it) == IF it.k = "i32" /\ i < 0 /\ "negc" \in DOMAIN st THEN [st EXCEPT !.negc = TRUE] ELSE st
+LogAcc(st, p, w, done) ==
+  IF "acc" \in DOMAIN st /\ st.sig \in {"n", "brk", "cont", "ret"}
+  THEN [st EXCEPT !.acc = Append(@, [root |-> p.root, path |-> p.path, dyn |-> PtrDyn(p), w |-> w, done |-> done])]
+  ELSE st
+
+(***************************************************************************)
 (* Value trees                                                             *)
 (***************************************************************************)
 RECURSIVE GetPath(_, _), SetPath(_, _, _), PathOk(_, _)
@@ -268,29 +308,45 @@ EvalArgs(P, env, es, i, stv) ==
   IF i > Len(es) THEN stv
   ELSE LET r == EvalE(P, env, es[i], stv[2]) IN EvalArgs(P, env, es, i + 1, <<Append(stv[1], r[1]), r[2]>>)
 
-\* a reference expression evaluates to a pointer [root, path]
+\* a reference expression evaluates to a pointer [root, path, oob, dyn]
 EvalRef(P, env, r, st) ==
-  IF ~Running(st) THEN <<[root |-> 0, path |-> <<>>], st>>
-  ELSE CASE r.k = "rvar"   -> <<[root |-> env[r.n].id, path |-> <<>>], st>>
+  IF ~Running(st) THEN <<MkPtr(0), st>>
+  ELSE CASE r.k = "rvar"   -> <<MkPtr(env[r.n].id), st>>
          [] r.k = "rmem"   -> LET b == EvalRef(P, env, r.b, st) IN <<[b[1] EXCEPT !.path = Append(@, r.m)], b[2]>>
          [] r.k = "ridx"   -> LET b == EvalRef(P, env, r.b, st)
                                   i == EvalE(P, env, r.i, b[2])
-                                  len == IF Running(i[2]) THEN Len(GetPath(i[2].mem[b[1].root], b[1].path)) ELSE 0
+                                  boob == PtrOob(b[1])
+                                  len == IF Running(i[2]) /\ ~boob THEN Len(GetPath(i[2].mem[b[1].root], b[1].path)) ELSE 0
+                                  \* the outermost dynamically indexed object (a literal index is static)
+                                  b1 == IF r.i.k # "lit" /\ PtrDyn(b[1]) = -1 /\ "dyn" \in DOMAIN b[1]
+                                        THEN [b[1] EXCEPT !.dyn = Len(b[1].path)] ELSE b[1]
+                                  mode == IF Running(i[2]) THEN PolModeOf(P, i[2], b[1].root) ELSE "Unchecked"
                                   \* an i32 index is out of range when negative, a u32 one when >= 2^31 (negative word) too
                               IN  IF ~Running(i[2]) THEN <<b[1], i[2]>>
-                                  ELSE IF i[1] < 0 \/ i[1] >= len THEN <<b[1], Abandon(i[2], "oob")>>
-                                  ELSE <<[b[1] EXCEPT !.path = Append(@, i[1])], i[2]>>
+                                  ELSE IF boob THEN <<b1, i[2]>>                     \* already out of range: stays so
+                                  ELSE IF i[1] >= 0 /\ i[1] < len THEN <<[b1 EXCEPT !.path = Append(@, i[1])], i[2]>>
+                                  ELSE CASE mode = "Restrict" /\ len > 0 ->
+                                              <<[b1 EXCEPT !.path = Append(@, ClampIdx(i[1], len, r.i.t, PolNeg(i[2])))],
+                                                MarkNeg(i[2], i[1], r.i.t)>>
+                                         [] mode = "RZSW"    -> <<[b1 EXCEPT !.oob = TRUE], i[2]>>
+                                         [] mode = "Binding" -> <<b[1], Abandon(i[2], "unconstrained:oob")>>
+                                         [] OTHER            -> <<b[1], Abandon(i[2], "oob")>>
          [] r.k = "rderef" -> EvalE(P, env, r.p, st)
 
+\* Load / Store through a pointer; an `oob` pointer (RZSW) loads the zero value of the type and skips the store
 Load(st, p)     == GetPath(st.mem[p.root], p.path)
-Store(st, p, v) == [st EXCEPT !.mem[p.root] = SetPath(@, p.path, v)]
+LoadT(P, st, p, t) == IF PtrOob(p) THEN ZeroOf(P, t) ELSE Load(st, p)
+Store(st, p, v) == IF PtrOob(p) THEN LogAcc(st, p, 1, FALSE)
+                   ELSE LogAcc([st EXCEPT !.mem[p.root] = SetPath(@, p.path, v)], p, 1, TRUE)
+LogLoad(st, p)  == LogAcc(st, p, 0, ~PtrOob(p))
 
 EvalE(P, env, e, st) ==
   IF ~Running(st) THEN <<0, st>>
   ELSE
   CASE e.k = "lit"  -> <<e.v, st>>
     [] e.k = "id"   -> <<env[e.n].v, st>>
-    [] e.k = "load" -> LET p == EvalRef(P, env, e.r, st) IN IF Running(p[2]) THEN <<Load(p[2], p[1]), p[2]>> ELSE <<0, p[2]>>
+    [] e.k = "load" -> LET p == EvalRef(P, env, e.r, st) IN
+                       IF Running(p[2]) THEN <<LoadT(P, p[2], p[1], e.t), LogLoad(p[2], p[1])>> ELSE <<0, p[2]>>
     [] e.k = "addr" -> EvalRef(P, env, e.r, st)
     [] e.k = "un"   -> LET a == EvalE(P, env, e.a, st) IN
                        IF ~Running(a[2]) THEN a
@@ -337,8 +393,13 @@ EvalE(P, env, e, st) ==
     [] e.k = "idx" -> LET a == EvalE(P, env, e.a, st)
                           i == EvalE(P, env, e.i, a[2])
                       IN  IF ~Running(i[2]) THEN <<0, i[2]>>
-                          ELSE IF i[1] < 0 \/ i[1] >= Len(a[1]) THEN <<0, Abandon(i[2], "oob")>>
-                          ELSE <<a[1][i[1] + 1], i[2]>>
+                          ELSE IF i[1] >= 0 /\ i[1] < Len(a[1]) THEN <<a[1][i[1] + 1], i[2]>>
+                          ELSE LET mode == PolModeOf(P, i[2], 0) IN
+                               CASE mode = "Restrict" -> <<a[1][ClampIdx(i[1], Len(a[1]), e.i.t, PolNeg(i[2])) + 1],
+                                                           MarkNeg(i[2], i[1], e.i.t)>>
+                                 [] mode = "RZSW"     -> <<ZeroOf(P, e.t), i[2]>>
+                                 [] mode = "Binding"  -> <<0, Abandon(i[2], "unconstrained:oob")>>
+                                 [] OTHER             -> <<0, Abandon(i[2], "oob")>>
     [] e.k = "call" -> LET as == EvalArgs(P, env, e.args, 1, <<<<>>, st>>) IN
                        IF ~Running(as[2]) THEN <<0, as[2]>> ELSE CallF(P, e.f, as[1], as[2])
     [] e.k = "bi" -> LET as == EvalArgs(P, env, e.args, 1, <<<<>>, st>>) IN
@@ -383,9 +444,9 @@ EvalBuiltin(P, env, e, as, st) ==
                                                  FFromInt(x(1) * y(2) - x(2) * y(1))>> ELSE <<0, 0, 0>>>>)
     [] f = "transpose" -> <<[r \in 1 .. t1.r |-> [c \in 1 .. t1.c |-> as[1][c][r]]], st>>
     [] f = "arrayLength" -> <<Len(Load(st, as[1])), st>>
-    [] f = "atomicLoad" -> <<Load(st, as[1]), st>>
+    [] f = "atomicLoad" -> <<LoadT(P, st, as[1], e.t), LogLoad(st, as[1])>>
     [] f \in {"atomicAdd", "atomicSub", "atomicMax", "atomicMin", "atomicAnd", "atomicOr", "atomicXor", "atomicExchange"} ->
-         LET old == Load(st, as[1])
+         LET old == LoadT(P, st, as[1], e.t)        \* an out-of-range atomic (RZSW) is skipped and returns zero
              k == e.t.k
              new == CASE f = "atomicAdd" -> Add32(old, as[2])
                       [] f = "atomicSub" -> Sub32(old, as[2])
@@ -441,15 +502,16 @@ ExecS(P, env, s, st) ==
                           v == EvalE(P, env, s.e, p[2])
                       IN  <<env, IF Running(v[2]) THEN Store(v[2], p[1], v[1]) ELSE v[2]>>
     [] s.k = "casg" -> LET p == EvalRef(P, env, s.r, st)              \* e1 op= e2 is e1 = e1 op e2 with e1 evaluated once:
-                           old == IF Running(p[2]) THEN Load(p[2], p[1]) ELSE 0   \* the old value is read before e2 is evaluated
-                           v == EvalE(P, env, s.e, p[2])
+                           old == IF Running(p[2]) THEN LoadT(P, p[2], p[1], s.r.t) ELSE 0   \* the old value is read before e2 is evaluated
+                           v == EvalE(P, env, s.e, LogLoad(p[2], p[1]))
                        IN  IF ~Running(v[2]) THEN <<env, v[2]>>
                            ELSE LET r == BinV(s.op, s.r.t, s.e.t, old, v[1])
                                 IN  <<env, IF r[1] THEN Store(v[2], p[1], r[2]) ELSE Abandon(v[2], "undecided:" \o s.op)>>
     [] s.k \in {"inc", "dec"} ->
                        LET p == EvalRef(P, env, s.r, st) IN
                        IF ~Running(p[2]) THEN <<env, p[2]>>
-                       ELSE <<env, Store(p[2], p[1], IF s.k = "inc" THEN Add32(Load(p[2], p[1]), 1) ELSE Sub32(Load(p[2], p[1]), 1))>>
+                       ELSE LET old == LoadT(P, p[2], p[1], s.r.t) IN
+                            <<env, Store(LogLoad(p[2], p[1]), p[1], IF s.k = "inc" THEN Add32(old, 1) ELSE Sub32(old, 1))>>
     [] s.k = "phony" -> <<env, EvalE(P, env, s.e, st)[2]>>
     [] s.k = "if" -> LET c == EvalE(P, env, s.c, st) IN
                      IF ~Running(c[2]) THEN <<env, c[2]>>
@@ -520,6 +582,17 @@ RunState(P, input) ==
       BindParams(i, env) == IF i > Len(f.params) THEN env
                             ELSE BindParams(i + 1, Bind(env, f.params[i].name, ValB(BuiltinVal(f.params[i].builtin))))
       st0 == [mem |-> g[1], fuel |-> Fuel, sig |-> "n", rv |-> 0, genv |-> g[2]]
+  IN  ExecB(P, BindParams(1, g[2]), f.body, st0)
+
+\* the same run under a bounds-check policy, with the access log (see "Bounds-check policy" above)
+RunStateP(P, input, pol) ==
+  LET genv0 == InitConsts(P, 1, <<>>)
+      g == InitGlobals(P, input, 1, <<>>, genv0)
+      f == P.fns[EntryOf(P)]
+      RECURSIVE BindParams(_, _)
+      BindParams(i, env) == IF i > Len(f.params) THEN env
+                            ELSE BindParams(i + 1, Bind(env, f.params[i].name, ValB(BuiltinVal(f.params[i].builtin))))
+      st0 == [mem |-> g[1], fuel |-> Fuel, sig |-> "n", rv |-> 0, genv |-> g[2], pol |-> pol, acc |-> <<>>, negc |-> FALSE]
   IN  ExecB(P, BindParams(1, g[2]), f.body, st0)
 
 \* what the harness compares: per global buffer the final words and the mask of compared words
